@@ -145,7 +145,7 @@ impl Check for C03 {
                "stub": ["the storage device behind Read+Seek (SimReader with Cursor seek semantics)"]})
     }
     fn required_probes(&self, _tier: Tier) -> Vec<&'static str> {
-        vec!["cut_inside_header", "cut_inside_body", "cut_on_boundary", "fault.eintr", "fault.short_read", "permuted_pointer_message", "embedded_after_prefix", "variable_length_marker_in_header"]
+        vec!["cut_inside_header", "cut_inside_body", "cut_on_boundary", "fault.eintr", "fault.short_read", "permuted_pointer_message", "embedded_after_prefix"]
     }
     fn budget_s(&self, tier: Tier) -> u64 {
         match tier {
